@@ -2,7 +2,7 @@
 C02 - aggregations return the stdlib result and never alter their inputs.
 """
 
-from ..actors import World, ident, is_source_item
+from ..actors import ResultObject, World, ident, is_source_item, make_fault, FAULT_TYPES, LOGGING_FLAVOURS
 from ..runner import Outcome
 from ..tools import AGGS, draw_cfg, Gen, AGG_NAMES, ABSENT
 from ..tooldiff import Run, drive_agg, ref_agg
@@ -60,6 +60,28 @@ def execute(st, ctx):
         spec = AGGS[name].gen(g)
         run = Run(World(sim, own_log=True))
         before = [ident(v) for v in spec.p.values() if v is not ABSENT]
+        fault = None
+        if ch.chance(1, 8):
+            # data that fails: one party prepared to raise at one of its uses; callables may raise StopAsyncIteration
+            # too - in the synchronous world an exception like any other, and aggregations are plain coroutines
+            base = ref_agg(spec)
+            silent = {p.name for p in spec.srcs if p.flavour not in LOGGING_FLAVOURS}
+            uses = [u for u in base.world.uses if u not in base.world.repolls and u[0] not in silent]
+            # (only if the data does not fail by itself: with two failures "which comes first" is not defined for
+            # aggregations, sorted gathers all items before the first key call, asyncstdlib interleaves)
+            if uses and base.end != "exc":
+                k = st.faults.draw(len(uses))
+                kind = st.faults.draw(len(FAULT_TYPES) + 2)
+                party, idx = uses[k]
+                if kind >= len(FAULT_TYPES) and party in base.world.fns:
+                    exc = StopAsyncIteration("fault@%d" % k)
+                else:
+                    exc = make_fault(kind, "fault@%d" % k)
+                fault = (party, idx, exc)
+                run.world.set_fault(*fault)
+                out.fault_free = False
+                out.faults["party_raises"] = 1
+        spec._faults = fault
         sim.spawn(drive_agg(spec, run))
         tenants.append((spec, run, before))
     run_sim(sim)
@@ -71,9 +93,14 @@ def execute(st, ctx):
         if run.end is None:
             out.violate("C02.did_not_finish", (tool,), {"scenario": spec.describe()})
             continue
-        ref = ref_agg(spec)
+        ref = ref_agg(spec, spec._faults)
         if ref.end == "exc":
             out.probes["stdlib_raised"] = 1
+        if spec._faults is not None and ref.exc is spec._faults[2] and run.exc is not ref.exc:
+            out.violate("C02.prepared_failure_not_propagated", (tool, type(ref.exc).__name__),
+                        {"async": repr(run.exc or run.value), "stdlib": repr(ref.exc), "fault": repr(spec._faults[:2]),
+                         "scenario": spec.describe()})
+            continue
         if run.end != ref.end:
             out.violate("C02.ending_differs", (tool, "async:" + run.end, "stdlib:" + ref.end),
                         {"async": repr(run.exc or run.value), "stdlib": repr(ref.exc or ref.value),
@@ -84,8 +111,10 @@ def execute(st, ctx):
                             {"scenario": spec.describe()})
         else:
             ia, ib = ident(run.value), ident(ref.value)
-            if type(run.value) is not type(ref.value) or ia != ib:
-                kind = "type" if type(run.value) is not type(ref.value) else "value"
+            same_type = type(run.value) is type(ref.value) or (
+                isinstance(run.value, ResultObject) and isinstance(ref.value, ResultObject))  # per-world classes
+            if not same_type or ia != ib:
+                kind = "type" if not same_type else "value"
                 out.violate("C02.result_differs", (tool, kind),
                             {"async": repr(run.value), "stdlib": repr(ref.value), "scenario": spec.describe()})
             elif is_source_item(ref.value) and run.value is not ref.value:
